@@ -520,3 +520,89 @@ Proof.
           | unfold fns; rewrite (proj1 K); exact (proj1 (proj2 F4)) | exact A | exact L | eapply add_child_bi; eassumption ] end ].
 Qed.
 End text.
+
+(* ================================================================== process_line, parse_blocks *)
+Lemma process_line_bi o st line0 st' :
+  bo_table o = false -> lf_terminated (norm_line line0) -> LK (norm_line line0) -> BlocksTotal2Walk.LI o st ->
+  process_line o st line0 = Ok st' -> BI st -> BI st'.
+Proof.
+  intros HT LN HK L0 H P. unfold process_line in H. cbv zeta in H.
+  match type of H with bind (check_open_blocks o ?sa ?lx) _ = _ =>
+    assert (La : BlocksTotal2Walk.LI o sa) by (eapply LI_eqtree; [|exact L0]; repeat split);
+    assert (Pa : BI sa) by (apply BI_st_line_number, BI_st_cur, BI_st_curline; exact P);
+    set (s_a := sa) in *; set (ln := lx) in * end.
+  assert (Ca : C1 ln s_a).
+  { unfold s_a, C1, C0. cbn [ps_cur st_cur st_line_number st_curline ps_curline_len c_offset].
+    match goal with |- context [if ?b then 3 else 0] => destruct b eqn:Bm end.
+    - apply andb_true_iff in Bm. destruct Bm as [Bm1 Bm2]. pose proof (bom_inside _ LN Bm2) as B3. fold ln in B3.
+      split; [split; [apply CI_start; lia | reflexivity] | lia].
+    - destruct (lf_last _ LN) as [_ L1]. fold ln in L1. split; [split; [apply CI_start; lia | reflexivity] | lia]. }
+  assert (Ta : PI ln s_a) by (constructor; unfold s_a; cbn; intro D; discriminate D).
+  destruct La as [Va Ha].
+  destruct (check_open_blocks o s_a ln) as [[r s1]| |] eqn:C; cbn [bind] in H; try discriminate H.
+  pose proof (safe_ok _ _ _ (check_open_blocks_spec o s_a ln Va) C) as K.
+  pose proof (check_open_blocks_cur ln LN o s_a Ca) as Kc. rewrite C in Kc. cbn [sg fst snd] in Kc.
+  pose proof (check_open_blocks_pi ln o s_a r s1 C Ta) as T1.
+  assert (P1 : BI s1) by (eapply check_open_blocks_bi; eassumption).
+  destruct r as [[lm am]|].
+  - cbn in K. destruct K as [T Hl]. pose proof (W_eqtree _ _ _ T Va) as V1.
+    assert (H1 : has s1 (ps_current s1)) by (destruct T as (Tx & Ty & Tz); unfold has in *; now rewrite Tx, Tz).
+    destruct (open_new_blocks o s1 lm ln am) as [[c s2]| |] eqn:O; cbn [bind] in H; try discriminate H.
+    pose proof (open_new_blocks_cur o ln s1 lm am LN V1 Hl H1 Kc) as C2. rewrite O in C2. cbn [sg snd] in C2.
+    pose proof (open_new_blocks_pi ln o s1 lm am c s2 O T1) as T2.
+    assert (P2 : BI s2) by (eapply open_new_blocks_bi; eassumption).
+    destruct (Nat.eqb (ps_current s1) (ps_current s2)).
+    + destruct (add_text_to_container o s2 c lm ln) as [s3| |] eqn:A; cbn [bind] in H; try discriminate H.
+      inversion H; subst. apply BI_st_curline, BI_st_last_line_length.
+      eapply add_text_to_container_bi; [exact HK | exact LN | exact (proj1 C2) | destruct T2 as [T2]; exact T2 | exact A | exact P2].
+    + cbn [bind] in H. inversion H; subst. apply BI_st_curline, BI_st_last_line_length. exact P2.
+  - cbn [bind] in H. inversion H; subst. apply BI_st_curline, BI_st_last_line_length. exact P1.
+Qed.
+
+Lemma process_lines_bi o : bo_table o = false -> forall ls st st',
+  Forall (fun l => lf_terminated (norm_line l) /\ LK (norm_line l)) ls -> BlocksTotal2Walk.LI o st ->
+  process_lines o st ls = Ok st' -> BI st -> BI st'.
+Proof.
+  intro HT. induction ls as [|l r IH]; intros st st' F L0 H P; cbn [process_lines] in H.
+  - now inversion H; subst.
+  - inversion F as [|? ? Hh Hr]; subst. destruct Hh as [Hl Hk].
+    destruct (process_line o st l) as [s1| |] eqn:E; cbn [bind] in H; try discriminate H.
+    pose proof (safe_ok _ _ _ (process_line_spec' o st l L0) E) as L1.
+    eapply IH; [exact Hr | exact L1 | exact H|]. exact (process_line_bi o st l s1 HT Hl Hk L0 E P).
+Qed.
+
+Lemma BI_init : BI init_state.
+Proof. constructor. cbn [ps_root init_state all_info]. split; [|exact I]. apply Bn_trivial. reflexivity. Qed.
+
+Lemma front_matter_prologue_bi o x st rest : front_matter_prologue o init_state x = Ok (st, rest) -> BI st.
+Proof.
+  unfold front_matter_prologue. intro H.
+  destruct (bo_front_matter_delimiter o) as [d|]; [|inversion H; subst; apply BI_init].
+  mon H; monall; repeat match goal with p : (_ * _)%type |- _ => destruct p end; cbn [fst snd] in *; try apply BI_init.
+  apply BI_st_line_number.
+  eapply modify_info_bi; [eassumption | bn_side |].
+  eapply unwrap_parent_fin_bi; [eassumption|]. eapply add_child_bi; [eassumption | apply BI_init].
+Qed.
+
+Lemma finalize_document_bi o st st' : finalize_document o st = Ok st' -> BI st -> BI st'.
+Proof.
+  unfold finalize_document. intros H P. mon H; monall. repeat match goal with p : (_ * _)%type |- _ => destruct p end. cbn [fst snd] in *.
+  eapply finalize_bi; [eassumption|]. eapply finalize_up_to_bi; eassumption.
+Qed.
+
+(* every Paragraph / Heading of the tree the block phase answers: no CR, every line non-blank (tables off) *)
+Theorem parse_blocks_nonblank o x r : bo_table o = false -> parse_blocks o x = Ok r -> all_info Bn (br_root r).
+Proof.
+  intros HT H. unfold parse_blocks in H.
+  destruct (front_matter_prologue o init_state x) as [[st rest]| |] eqn:E; cbn [bind] in H; try discriminate H.
+  pose proof (front_matter_prologue_bi _ _ _ _ E) as P.
+  pose proof (safe_ok _ _ _ (front_matter_prologue_spec o init_state x (LI_init o)) E) as L0. cbn [fst] in L0.
+  assert (LL : Forall (fun l => lf_terminated (norm_line l) /\ LK (norm_line l)) (lines rest)).
+  { pose proof (lines_lf rest) as A. pose proof (lines_LK rest) as B. induction A; inversion B; subst; constructor; [split; assumption | auto]. }
+  unfold lines in LL. destruct (feed_lines rest) as [ls total]. cbn [fst] in LL.
+  unfold run_lines in H.
+  destruct (process_lines o st ls) as [s1| |] eqn:R; cbn [bind] in H; try discriminate H.
+  destruct (finalize_document o s1) as [s2| |] eqn:F; cbn [bind] in H; try discriminate H.
+  inversion H; subst. cbn [br_root]. apply BI_all.
+  eapply finalize_document_bi; [exact F|]. eapply process_lines_bi; eassumption.
+Qed.
